@@ -243,4 +243,24 @@ def c01_sweep(seed=0, n=150):
     return {"violates": False, "cases": cases}
 
 
-CALLS = {"c01_refused_between": c01_refused_between, "c01_ignore_scope": c01_ignore_scope, "c01_value": c01_value, "c01_obs": c01_obs, "c01_keyword": c01_keyword, "c01_meta": c01_meta, "c01_sequence": c01_sequence, "c01_nested": c01_nested, "c01_grouped": c01_grouped, "c01_sweep": c01_sweep}
+
+
+def c01_alias(s=""):
+    from flow.record import RecordDescriptor
+
+    A = RecordDescriptor("c01/alias", [("string", "s"), ("net.ipaddress", "ip"), ("string[]", "l")])
+    B = RecordDescriptor("c01/alias", [("wstring", "s"), ("net.IPAddress", "ip"), ("wstring[]", "l")])
+    return _compare([A(s=s, ip="1.2.3.4", l=["a"]), B(s=s, ip="1.2.3.4", l=["a"]), A(s="x", ip="2001:db8::1", l=[]), B(s="y", ip=None, l=["b", "c"])])
+
+
+def c01_same_instant(x=0):
+    from flow.record import RecordDescriptor
+
+    D = RecordDescriptor("c01/ts", [("datetime", "ts"), ("datetime[]", "tl"), ("varint", "n")])
+    vals = [_eval(s_) for s_ in ("DT(2020, 1, 1, 12, 0, 0, 5, tzinfo=TZ(TD(0)))", "DT(2020, 1, 1, 13, 0, 0, 5, tzinfo=TZ(TD(hours=1)))", "DT(2020, 1, 1, 7, 0, 0, 5, tzinfo=TZ(TD(hours=-5)))", "DT(2020, 1, 1, 17, 30, 0, 5, tzinfo=TZ(TD(hours=5, minutes=30)))")]
+    rs = [D(ts=v, tl=[vals[(i + 1) % 4], vals[(i + 2) % 4]], n=x, _generated=vals[(i + 3) % 4]) for i, v in enumerate(vals)]
+    rs.append(D(ts=vals[0], tl=[], n=x, _generated=vals[0]))
+    return _compare(rs)
+
+
+CALLS = {"c01_refused_between": c01_refused_between, "c01_ignore_scope": c01_ignore_scope, "c01_value": c01_value, "c01_obs": c01_obs, "c01_keyword": c01_keyword, "c01_meta": c01_meta, "c01_sequence": c01_sequence, "c01_nested": c01_nested, "c01_grouped": c01_grouped, "c01_sweep": c01_sweep, "c01_alias": c01_alias, "c01_same_instant": c01_same_instant}
